@@ -68,6 +68,15 @@ class LinkedList:
         while self._next_index[self._last_index] is not None:
             self._last_index = self._next_index[self._last_index]
 
+    def to_list(self):
+        """Returns the data in the order of the linked list."""
+        data = []
+        index = self._next_index[None]
+        while index is not None:
+            data.append(self._memory[index])
+            index = self._next_index[index]
+        return data
+
     def next(self, data):
         """Get the next data for a given data.
 
@@ -312,15 +321,33 @@ class GridSearchOracle(oracle_module.Oracle):
         hps.ensure_active_values()
         return hps.values if bumped_value else None
 
+    def get_state(self):
+        state = super().get_state()
+        state.update(
+            {
+                "ordered_ids": self._ordered_ids.to_list(),
+                "populate_next": self._populate_next,
+            }
+        )
+        return state
+
+    def set_state(self, state):
+        super().set_state(state)
+        self._ordered_ids = LinkedList()
+        for trial_id in state.get("ordered_ids", []):
+            self._ordered_ids.insert(trial_id)
+        self._populate_next = state.get("populate_next", [])
+
     @oracle_module.synchronized
     def end_trial(self, trial):
-        super().end_trial(trial)
         # It is OK for a trial_id to be pushed into _populate_next multiple
         # times. It will be skipped during _populate_space if its next
         # combination has been tried.
 
         # For not blocking _populate_space, we push it regardless of the status.
+        # Push it before `Oracle.end_trial()` saves the state.
         self._populate_next.append(trial.trial_id)
+        super().end_trial(trial)
 
 
 @keras_tuner_export(["keras_tuner.GridSearch", "keras_tuner.tuners.GridSearch"])
